@@ -10,26 +10,34 @@ namespace Biogo.Proofs.PalsChain
 open Biogo.Filter Biogo.Proofs.FilterRun
 
 /-- every tube has `QLo ≤ QHi ≤ P` (`P` = the query position being processed) and every pushed
-    hit has `From + k ≤ To` (it contains a whole k-mer) -/
+    hit has `From + k ≤ To` (it contains a whole k-mer) and `From ≤ P` (it starts at a position
+    already scanned) -/
 structure TWF (c : Cfg) (P : Nat) (s : St) : Prop where
   tubes : ∀ slot, (getTube s slot).qLo ≤ (getTube s slot).qHi ∧ (getTube s slot).qHi ≤ P
   hits : ∀ h ∈ s.hits, h.from_ + c.k ≤ h.to
+  fromLe : ∀ h ∈ s.hits, h.from_ ≤ (P : Int)
 
 theorem TWF.mono {c : Cfg} {P P' : Nat} {s : St} (h : TWF c P s) (hp : P ≤ P') : TWF c P' s :=
-  ⟨fun slot => ⟨(h.tubes slot).1, Nat.le_trans (h.tubes slot).2 hp⟩, h.hits⟩
+  ⟨fun slot => ⟨(h.tubes slot).1, Nat.le_trans (h.tubes slot).2 hp⟩, h.hits,
+   fun x hx => by have := h.fromLe x hx; omega⟩
 
-theorem addHit_twf (c : Cfg) {P : Nat} {s : St} (h : TWF c P s) (ti : Int) (a b : Nat) (hab : a ≤ b) :
+theorem addHit_twf (c : Cfg) {P : Nat} {s : St} (h : TWF c P s) (ti : Int) (a b : Nat) (hab : a ≤ b) (hbP : b ≤ P) :
     TWF c P (addHit c s ti a b) := by
-  refine ⟨fun slot => h.tubes slot, ?_⟩
-  intro x hx
-  simp only [addHit, List.mem_cons] at hx
-  rcases hx with e | e
-  · subst e; simp only; omega
-  · exact h.hits x e
+  refine ⟨fun slot => h.tubes slot, ?_, ?_⟩
+  · intro x hx
+    simp only [addHit, List.mem_cons] at hx
+    rcases hx with e | e
+    · subst e; simp only; omega
+    · exact h.hits x e
+  · intro x hx
+    simp only [addHit, List.mem_cons] at hx
+    rcases hx with e | e
+    · subst e; simp only; omega
+    · exact h.fromLe x e
 
 theorem set_twf {c : Cfg} {P : Nat} {s : St} (h : TWF c P s) (slot : Nat) (v : Tube) (hv : v.qLo ≤ v.qHi ∧ v.qHi ≤ P) :
     TWF c P { s with tubes := s.tubes.setIfInBounds slot v } := by
-  refine ⟨?_, h.hits⟩
+  refine ⟨?_, h.hits, h.fromLe⟩
   intro slot'
   rw [getTube_set]
   split
@@ -46,7 +54,7 @@ theorem hitTube_twf (c : Cfg) {P : Nat} {s : St} (h : TWF c P s) (ti q : Nat) (h
   · exact set_twf h' _ _ ⟨Nat.le_refl _, Nat.le_refl _⟩
   · split
     · split
-      · exact set_twf (addHit_twf c h' _ _ _ ht.1) _ _ ⟨Nat.le_refl _, Nat.le_refl _⟩
+      · exact set_twf (addHit_twf c h' _ _ _ ht.1 (Nat.le_trans ht.2 hq)) _ _ ⟨Nat.le_refl _, Nat.le_refl _⟩
       · exact set_twf h' _ _ ⟨Nat.le_refl _, Nat.le_refl _⟩
     · exact set_twf h' _ _ ⟨by simp only; omega, Nat.le_refl _⟩
 
@@ -70,10 +78,10 @@ theorem retire_twf (c : Cfg) {P : Nat} {s : St} (h : TWF c P s) (ti : Int) : TWF
   unfold retire
   simp only []
   split
-  · exact ⟨fun slot => h.tubes slot, h.hits⟩
+  · exact ⟨fun slot => h.tubes slot, h.hits, h.fromLe⟩
   · have ht := h.tubes (ti.tmod c.cap).toNat
     split
-    · exact set_twf (addHit_twf c h _ _ _ ht.1) _ _ ht
+    · exact set_twf (addHit_twf c h _ _ _ ht.1 ht.2) _ _ ht
     · exact set_twf h _ _ ht
 
 theorem tubeFlush_twf (c : Cfg) {P : Nat} {s : St} (h : TWF c P s) (ti : Nat) : TWF c P (tubeFlush c s ti) := by
@@ -82,7 +90,7 @@ theorem tubeFlush_twf (c : Cfg) {P : Nat} {s : St} (h : TWF c P s) (ti : Nat) : 
   have ht := h.tubes (ti % c.cap)
   split
   · exact h
-  · exact set_twf (addHit_twf c h _ _ _ ht.1) _ _ ht
+  · exact set_twf (addHit_twf c h _ _ _ ht.1 ht.2) _ _ ht
 
 theorem flushLoop_twf (c : Cfg) {P : Nat} : ∀ (n ti : Nat) (s : St), TWF c P s → TWF c P (flushLoop c n ti s) := by
   intro n
@@ -108,12 +116,13 @@ theorem scanN_twf (c : Cfg) (ts : Nat → List Nat) (l0 : Loop) (h0 : TWF c 0 l0
     rw [scanN_succ]
     exact (onKmer_twf c ih N (Nat.le_refl _) (ts N)).mono (Nat.le_succ _)
 
-/-- every hit pushed by a whole run of the filter model has `From + k ≤ To` -/
+/-- every hit pushed by a whole run of the filter model has `From + k ≤ To` and `From ≤ N` (the
+    number of query positions scanned) -/
 theorem runFilter_hits_wf (c : Cfg) (ts : Nat → List Nat) (N qlen : Nat) :
-    ∀ h ∈ (runFilter c ts N qlen).hits, h.from_ + c.k ≤ h.to := by
+    ∀ h ∈ (runFilter c ts N qlen).hits, h.from_ + c.k ≤ h.to ∧ h.from_ ≤ (N : Int) := by
   have h0 : TWF c 0 (Loop.mk (St.mk (Array.replicate c.cap default) [] false)
       ((c.off + c.maxError : Nat) : Int)).st := by
-    refine ⟨?_, by simp⟩
+    refine ⟨?_, by simp, by simp⟩
     intro slot
     show (getTube { tubes := Array.replicate c.cap default, hits := [] } slot).qLo ≤ _ ∧ _
     rw [getTube_init]
@@ -122,7 +131,8 @@ theorem runFilter_hits_wf (c : Cfg) (ts : Nat → List Nat) (N qlen : Nat) :
   have h2 := retire_twf c h1 (tubeEndIndex c (qlen - 1))
   unfold runFilter
   simp only []
-  exact (flushLoop_twf c _ _ _ h2).hits
+  intro h hh
+  exact ⟨(flushLoop_twf c _ _ _ h2).hits h hh, (flushLoop_twf c _ _ _ h2).fromLe h hh⟩
 
 open Biogo.Proofs.FilterComplete Biogo.Proofs.Kmer Biogo.Spec.Kmer Biogo.Kmer in
 /-- the same for `filter` on a query without invalid letters -/
@@ -130,7 +140,7 @@ theorem filter_hits_wf {lk : Lookup} (hlk : FourLetter lk) (rule : Rule) (ix : I
     (selfAlign complement : Bool) (hk : 1 ≤ ix.k) (hk2 : 2 * ix.k ≤ wordBits) (hq : AllValid lk q)
     (hkq : ix.k ≤ q.length) (he : p.maxError ≤ p.tubeOffset) (hoff : 1 ≤ p.tubeOffset)
     (hits : List Hit) (hf : filter rule lk ix p q selfAlign complement = .ok hits) :
-    ∀ h ∈ hits, h.from_ + ix.k ≤ h.to := by
+    ∀ h ∈ hits, h.from_ + ix.k ≤ h.to ∧ h.from_ ≤ (q.length : Int) := by
   have e := filter_eq_run hlk rule ix p q selfAlign complement hk hk2 hq hkq he hoff
   simp only [] at e
   rw [e] at hf
@@ -138,6 +148,10 @@ theorem filter_hits_wf {lk : Lookup} (hlk : FourLetter lk) (rule : Rule) (ix : I
   · cases hf
   · cases hf
     intro h hh
-    exact runFilter_hits_wf _ _ _ _ h (List.mem_reverse.mp hh)
+    have := runFilter_hits_wf (mkCfg rule ix.k ix.seq.length p selfAlign complement) _ (q.length - ix.k + 1) q.length h
+      (List.mem_reverse.mp hh)
+    refine ⟨this.1, ?_⟩
+    have h2 := this.2
+    omega
 
 end Biogo.Proofs.PalsChain
